@@ -200,9 +200,17 @@ def generate(streams: Streams, tier: str, index: int) -> dict:
         nf = rng.choice([1, 2, 3, 3, 4, 5, 6, 8])
         frames = [_gen_frame(rng, grid, 4) for _ in range(nf)]
         t, times = rng.choice([0, 0, -2.5, 10]), []
-        for _ in range(nf):
+        # a storage may hold repeated or non-monotonic time stamps (a continued or restarted
+        # run stored into the same storage): the frames are still a sequence
+        tmode = rng.choice(["inc", "inc", "inc", "dup", "restart", "equal"])
+        for k in range(nf):
             times.append(t)
-            t = t + rng.choice([1, 1, 0.5, 2.25, 3])
+            if tmode == "inc":
+                t = t + rng.choice([1, 1, 0.5, 2.25, 3])
+            elif tmode == "dup":
+                t = t + rng.choice([0, 0, 1, 0.5])
+            elif tmode == "restart":
+                t = times[0] if k == nf // 2 else t + rng.choice([1, 0.5])
         tasks = nf
         opts["refine"] = rng.random() < 0.5
         if system == "tracks_from_storage":
